@@ -260,13 +260,13 @@ func compare(impl, model []Line, metaReq map[string]bool) (int, string, string) 
 	ci := canonLinesFor(*flagProperty, impl, metaReq)
 	cm := canonLinesFor(*flagProperty, model, metaReq)
 	for i := range ci {
-		a := jsonKey(map[string]any{"out": ci[i].Out, "closed": nonNil(ci[i].Closed), "panic": ci[i].Panic, "refused": ci[i].Note == "refused", "sizes": ci[i].Sizes})
+		a := jsonKey(map[string]any{"out": ci[i].Out, "closed": nonNil(ci[i].Closed), "panic": ci[i].Panic, "refused": ci[i].Note == "refused", "sizes": sizesOrNil(ci[i].Sizes)})
 		var b string
 		if i < len(cm) {
 			if strings.HasPrefix(cm[i].Note, "{") {
 				b = cm[i].Note
 			} else {
-				b = jsonKey(map[string]any{"out": cm[i].Out, "closed": nonNil(cm[i].Closed), "panic": cm[i].Panic, "refused": cm[i].Note == "refused", "sizes": cm[i].Sizes})
+				b = jsonKey(map[string]any{"out": cm[i].Out, "closed": nonNil(cm[i].Closed), "panic": cm[i].Panic, "refused": cm[i].Note == "refused", "sizes": sizesOrNil(cm[i].Sizes)})
 			}
 		}
 		if a != b {
@@ -274,6 +274,13 @@ func compare(impl, model []Line, metaReq map[string]bool) (int, string, string) 
 		}
 	}
 	return -1, "", ""
+}
+
+func sizesOrNil(m map[string]map[string]int) any {
+	if len(m) == 0 {
+		return nil
+	}
+	return m
 }
 
 func nonNil(x []int) []int {
